@@ -518,6 +518,8 @@ func (e *Engine) VirtualizationUpdateResource(ctx context.Context, ID string, en
 	quota := resourceOpts.Quota
 	cpuMap := resourceOpts.CPU
 	numaNode := resourceOpts.NUMANode
+	// a workload without cpu binding shares all cores but keeps its cpu limit as quota
+	shared := resourceOpts.Remap || len(cpuMap) == 0
 	// unlimited cpu
 	if quota == 0 || len(cpuMap) == 0 {
 		info, err := e.Info(ctx) // TODO can fixed in docker engine, support empty Cpusetcpus, or use cache to speed up
@@ -534,7 +536,7 @@ func (e *Engine) VirtualizationUpdateResource(ctx context.Context, ID string, en
 		}
 	}
 
-	newResource := makeResourceSetting(quota, memory, cpuMap, numaNode, resourceOpts.IOPSOptions, resourceOpts.Remap)
+	newResource := makeResourceSetting(quota, memory, cpuMap, numaNode, resourceOpts.IOPSOptions, shared)
 	updateConfig := dockercontainer.UpdateConfig{Resources: newResource}
 	_, err := e.client.ContainerUpdate(ctx, ID, updateConfig)
 	return err
